@@ -107,10 +107,11 @@ class FullGen(Gen):
             # one-argument formatting (specialised by the compiler) of values that may themselves be tuples
             x = self.ch([self.expr(sc, TIS, 2), "(%s,)" % self.expr(sc, INT, 2), "()", "(%s, %s)" % (self.expr(sc, INT, 2), self.expr(sc, STR, 2)),
                          self.ch(vs).name if vs else "(1, 2)", self.expr(sc, self.ch([INT, STR, LI, DSI]), 2), "((1, 2),)", "[(1,)]", "{\"a\": 1}"])
-            fmt = self.ch(['"<%s>"', '"%s"', '"a%sb"', '"%s%%"', '"%%%s"', '"<%r>"', '"%d"', '"%s %s"', '"<%s>"', '"<%s>"'])
-            form = self.ch(["(%s %% (%s,))", "(%s %% %s)", "(%s %% (%s,))", "%s.format(%s)"])
+            safe = self.risk == 0  # libraries that must evaluate: only forms that cannot fail
+            fmt = self.ch(['"<%s>"', '"%s"', '"a%sb"', '"%s%%"', '"%%%s"', '"<%r>"', '"<%s>"', '"<%s>"'] + ([] if safe else ['"%d"', '"%s %s"']))
+            form = self.ch(["(%s %% (%s,))", "(%s %% (%s,))", "%s.format(%s)"] + ([] if safe else ["(%s %% %s)"]))
             if form.endswith(".format(%s)"):
-                fmt = self.ch(['"<{}>"', '"{}"', '"a{}b"', '"{0}"', '"{0}{0}"', '"{!r}"', '"{{{}}}"', '"{}{}"'])
+                fmt = self.ch(['"<{}>"', '"{}"', '"a{}b"', '"{0}"', '"{0}{0}"', '"{!r}"', '"{{{}}}"'] + ([] if safe else ['"{}{}"']))
             return form % (fmt, x)
         if k == 0 and vs:
             return "repr(%s)" % self.ch(vs).name
